@@ -945,6 +945,10 @@ class Executor(Engine):
             # `also`: lemmas stated earlier in this list (all are obligations of the same run)
             for il, kexpr in opts.get('uses', []):
                 var, itext = ind[il]
+                if kexpr is None:          # the lemma for every k >= 0
+                    gi, ai = self.spec_bool(f'forall(lambda {var}: implies({var} >= 0, {itext}))', env_, old={}, ghosts={})
+                    hyps += ai + [gi]
+                    continue
                 kv_, ka = self.spec_eval(kexpr, env_, {}, {})
                 gi, ai = self.spec_bool(itext, dict(env_, **{var: kv_}), old={}, ghosts={})
                 hyps += ka + ai + [z3.Implies(to_int(kv_) >= 0, gi)]
